@@ -1497,6 +1497,11 @@ func (r *Raft) appendEntries(rpc RPC, a *AppendEntriesRequest) {
 		var prevLogTerm uint64
 		if a.PrevLogEntry == lastIdx {
 			prevLogTerm = lastTerm
+		} else if snapIdx, snapTerm := r.getLastSnapshot(); a.PrevLogEntry == snapIdx {
+			// The previous entry is the one our snapshot ends at. It is usually
+			// compacted away, so it has to be checked against the snapshot, the
+			// same way the leader builds the request (see setPreviousLog).
+			prevLogTerm = snapTerm
 		} else {
 			var prevLog Log
 			if err := r.logs.GetLog(a.PrevLogEntry, &prevLog); err != nil {
